@@ -54,6 +54,9 @@ def frame_violations(spec, obs, sc_idx=0):
     tm = sc.tmap()
     gran = timedelta(seconds=obs.gran)
     edges = rules.all_edges(spec)
+    from ..findings import _backward_closure
+
+    back_closure = _backward_closure(spec)
     for p, t in spec.iter_tasks():
         if t.children:
             continue
@@ -72,8 +75,8 @@ def frame_violations(spec, obs, sc_idx=0):
             if to.start != to.end:
                 vs.append(Violation("milestone_not_instant", name, f"{to.start} .. {to.end}"))
                 continue
-            if rules.explicit_backward(spec, p):
-                continue
+            if rules.explicit_backward(spec, p) or p in back_closure:
+                continue  # backward by declaration or by ALAP propagation from an anchored successor: no forward bound
             if t.start is not None:
                 if to.start != t.start:
                     vs.append(Violation("milestone_off_pin", name, f"pinned {t.start}, reported {to.start}"))
